@@ -55,16 +55,18 @@ def fixed_param(draw, cost, p):
     mean_elem = st.one_of(st.integers(-5, 5).map(float), st.floats(-10, 10, allow_nan=False))
     param = {"mean": scalar_or_vec(mean_elem)}
     if cost == "GaussianVarCost":
-        param["var"] = scalar_or_vec(st.one_of(st.sampled_from([0.01, 0.5, 1.0, 4.0, 100.0]),
+        param["var"] = scalar_or_vec(st.one_of(st.sampled_from([1.0, 0.5, 0.01, 4.0, 100.0, 1e-6, 1e-9, 1e4]),
                                                st.floats(1e-2, 1e2, allow_nan=False)))
     elif cost == "GaussianCovCost":
+        # any positive-definite covariance: also small / large overall scales (eigenvalues stay far above 1e-16)
+        scale = draw(st.sampled_from([1.0, 1.0, 1e-4, 1e-9, 1e3]))
         if draw(st.booleans()):
-            param["cov"] = draw(st.sampled_from([0.25, 1.0, 3.0, 50.0]))
+            param["cov"] = draw(st.sampled_from([1.0, 0.25, 3.0, 50.0])) * scale
         else:
             A = [[draw(st.integers(-3, 3)) for _ in range(p)] for _ in range(p)]
             c = draw(st.sampled_from([0.5, 1.0, 2.0]))
             A = np.asarray(A, dtype=float)
-            param["cov"] = (A @ A.T + c * np.eye(p)).tolist()
+            param["cov"] = ((A @ A.T + c * np.eye(p)) * scale).tolist()
     return param
 
 
